@@ -160,7 +160,15 @@ def gen_case(rng, kind, tier):
     return case
 
 
-def boundary_cases(rng, kind, tier):
+BOUNDARY_SEED = 15015        # the boundary / wide stream is deterministic: independent of VERIF_SEED and of the tier
+
+
+def boundary_cases(rng_unused, kind, tier):
+    rng = C.Rng(BOUNDARY_SEED + KINDS.index(kind))
+    return _boundary_cases(rng, kind, tier)
+
+
+def _boundary_cases(rng, kind, tier):
     """The boundaries of the quantified dimensions, hit deliberately: batch 1 and 2 (0 is probed in every case), one
     column, columns == heads, channels == heads (d_head = 1), prompts == groups, one prompt group."""
     out = []
@@ -177,6 +185,17 @@ def boundary_cases(rng, kind, tier):
 
     mk(B=1)
     mk(B=2)
+    mk(B=3, dropout=0.0, dropout2=0.0, dropout3=0.0)
+    mk(B=4, dropout=0.4, dropout2=0.3, dropout3=0.3)
+    if kind in ("tab_conv", "ft_convs"):
+        c = gen_case(rng, kind, tier)
+        c.update(cols=3, B=2, perm=[2, 0, 1], idx=[1, 0])          # a non-trivial column permutation
+        out.append(c)
+    if kind == "ft_convs":
+        mk(activation="relu", ff_channels=None, layers=1)
+        mk(activation="gelu", ff_channels=16, layers=2)
+    if kind in ("trompt_decoder", "excel_decoder"):
+        mk(out=3, prompts=4)
     if kind in ("tab_conv", "excel_conv", "ft_convs"):
         mk(heads=4, channels=4)                       # channels == heads
         mk(heads=4, channels=8, cols=4)               # columns == heads
@@ -194,7 +213,11 @@ def boundary_cases(rng, kind, tier):
 WIDE = [127, 128, 129, 130, 257, 300]
 
 
-def wide_cases(rng, kind, tier):
+def wide_cases(rng_unused, kind, tier):
+    return _wide_cases(C.Rng(BOUNDARY_SEED + 100 + KINDS.index(kind)), kind, tier)
+
+
+def _wide_cases(rng, kind, tier):
     """Wide column dimension (integer buffers: 128 = int8, 256 = uint8 boundaries), small channels / heads / batch."""
     if kind == "trompt_decoder":
         return []
@@ -215,8 +238,10 @@ def generate(rng, tier):
     n = 24 if tier == "quick" else 600
     cases = []
     for kind in KINDS:
-        cases += boundary_cases(rng, kind, tier)
-        cases += wide_cases(rng, kind, tier)
+        det = boundary_cases(rng, kind, tier) + wide_cases(rng, kind, tier)
+        for c in det:
+            c["req"] = True
+        cases += det
         for _ in range(n):
             cases.append(gen_case(rng, kind, tier))
     return cases
@@ -693,6 +718,9 @@ def stats(cases, obss):
             bd["outlier_row_probes"] = bd.get("outlier_row_probes", 0) + len(o["outlier"])
         for k, v in (("kinds", c["kind"]), ("B", c["B"]), ("cols", c["cols"]), ("heads", c["heads"])):
             d[k][str(v)] = d[k].get(str(v), 0) + 1
+        if c.get("req"):
+            d["req_total"] = d.get("req_total", 0) + 1
+            d["req_errors"] = d.get("req_errors", 0) + int(not o.get("ok"))
         if not o.get("ok"):
             d["errors"] += 1
             continue
@@ -847,8 +875,10 @@ def sanity(cases, obss):
     for k in KINDS:
         if d["kinds"].get(k, 0) == 0:
             probs.append(f"layer kind {k} never drawn")
-    if d["total"] and d["errors"] > 0.2 * d["total"]:
-        probs.append(f"{d['errors']} of {d['total']} cases failed to run")
+    if d.get("req_total", 0) == 0:
+        probs.append("the deterministic boundary stream is missing")
+    if d.get("req_errors", 0) > 0.2 * max(d.get("req_total", 0), 1):
+        probs.append(f"{d.get('req_errors')} of {d.get('req_total')} cases of the deterministic stream failed to run")
     if not any(int(h) >= 3 for h in d["heads"]):
         probs.append("no case with 3 or more attention heads")
     if d.get("B", {}).get("1", 0) == 0 or not any(int(b) >= 3 for b in d["B"]):
